@@ -196,6 +196,19 @@ func (qt *quotaTopology) checkParentQuotaInfo(quotaName, parentName string) erro
 		if !parentInfo.IsParent {
 			return fmt.Errorf("%v has parentName %v but the parentQuotaInfo's IsParent is false", quotaName, parentName)
 		}
+		// the new parent must be neither the quota itself nor one of its descendants,
+		// otherwise the quota and its subtree are cut off from the root.
+		ancestor := parentName
+		for i := 0; i <= len(qt.quotaInfoMap) && ancestor != extension.RootQuotaName; i++ {
+			if ancestor == quotaName {
+				return fmt.Errorf("%v has parentName %v which is itself or one of its descendants", quotaName, parentName)
+			}
+			ancestorInfo, ok := qt.quotaInfoMap[ancestor]
+			if !ok {
+				break
+			}
+			ancestor = ancestorInfo.ParentName
+		}
 	}
 	return nil
 }
